@@ -101,7 +101,20 @@ class _SwapBranches(ast.NodeTransformer):
         return node
 
 
-TRANSFORMS = {"flip_comparisons": _FlipCompare, "matmul_operator": _MatMul, "swap_branches": _SwapBranches}
+class _NumpyAlias(ast.NodeTransformer):
+    def visit_Import(self, node):
+        for a in node.names:
+            if a.name == "numpy" and a.asname == "np":
+                a.asname = "npy"
+        return node
+
+    def visit_Name(self, node):
+        if node.id == "np":
+            return ast.copy_location(ast.Name(id="npy", ctx=node.ctx), node)
+        return node
+
+
+TRANSFORMS = {"flip_comparisons": _FlipCompare, "matmul_operator": _MatMul, "swap_branches": _SwapBranches, "numpy_alias": _NumpyAlias}
 
 
 def transform_tree(src, dst, kind):
